@@ -389,3 +389,87 @@ def replay_funlink(ctx, res):
             except Exception as ex:
                 done[fam] = {"reproduced": False, "outcome": "replayer error: %r" % (ex,)}
         o.replay = done[fam]
+
+
+FLEAF_SCRIPT = r'''
+import sys, importlib, itertools
+fam = %(fam)r
+M = importlib.import_module("BTrees._%%sBTree" %% fam)
+bad = []
+def val(k, gen=0):
+    return %(valexpr)s
+def check(t, model, isset, what):
+    got = list(t.keys()) if isset else list(t.items())
+    want = sorted(model) if isset else sorted(model.items())
+    if got != want:
+        bad.append("%%s: contents %%r, the model has %%r" %% (what, got[:8], want[:8]))
+        return False
+    if len(t) != len(model):
+        bad.append("%%s: len %%d, the model has %%d" %% (what, len(t), len(model))); return False
+    return True
+for kind in ("Bucket", "Set"):
+    isset = kind == "Set"
+    cls = getattr(M, fam + kind)
+    for n in (1, 2, 3, 5, 17, 40):
+        for order_name, order in (("ascending", list(range(n))), ("descending", list(range(n - 1, -1, -1))),
+                                  ("inside-out", sorted(range(n), key=lambda k: (abs(k - n // 2), k)))):
+            t, model = cls(), ({} if not isset else set())
+            ok = True
+            for k in order:
+                key = 3 * k + 1
+                try:
+                    (t.add(key) if isset else t.__setitem__(key, val(key)))
+                except Exception as e:
+                    bad.append("%%s%%s insert %%r (%%s, n=%%d): raised %%s" %% (fam, kind, key, order_name, n, type(e).__name__)); ok = False; break
+                (model.add(key) if isset else model.__setitem__(key, val(key)))
+                if not check(t, model, isset, "%%s%%s after inserting %%r (%%s, n=%%d)" %% (fam, kind, key, order_name, n)):
+                    ok = False; break
+            if not ok:
+                continue
+            if not isset:
+                for k in order[::2]:
+                    key = 3 * k + 1
+                    t[key] = val(key, 1); model[key] = val(key, 1)
+                    if not check(t, model, isset, "%%s%%s after replacing the value of %%r" %% (fam, kind, key)):
+                        ok = False; break
+            for k in (order[1::2] + order[::2]) if ok else ():
+                key = 3 * k + 1
+                try:
+                    (t.remove(key) if isset else t.__delitem__(key))
+                except Exception as e:
+                    bad.append("%%s%%s delete %%r: raised %%s" %% (fam, kind, key, type(e).__name__)); break
+                (model.discard(key) if isset else model.pop(key))
+                if not check(t, model, isset, "%%s%%s after deleting %%r (%%s, n=%%d)" %% (fam, kind, key, order_name, n)):
+                    break
+print("\n".join(bad[:10]) or "no violation on the leaf histories")
+sys.exit(1 if bad else 0)
+'''
+
+
+def replay_fleaf(ctx, res):
+    """F-LEAF has no input of its own: the replay drives leaves (Bucket, Set) of the family through inserts in three
+    orders (across the growth of the vectors), value replacements and deletions, comparing with a dict / set model."""
+    import re
+    from lib import build
+    done = {}
+    for o in res.obligations:
+        if o.status not in ("refuted", "unknown") or not o.name.startswith("F-LEAF"):
+            continue
+        fm = re.match(r"\[(\w\w)\]", o.detail or "")
+        if not fm:
+            continue
+        fam = fm.group(1)
+        if fam not in done:
+            valexpr = {"O": "'v%d.%d' % (k, gen)", "F": "k + 0.5 + gen"}.get(fam[1], "k * 7 + gen")
+            script = FLEAF_SCRIPT % {"fam": fam, "valexpr": valexpr}
+            try:
+                bdir = build.build((fam,))
+                e = dict(os.environ, PYTHONPATH=bdir + os.pathsep + VERIF)
+                p = subprocess.run([PY, "-c", script], env=e, capture_output=True, text=True, timeout=300)
+                crashed = p.returncode < 0
+                done[fam] = {"reproduced": p.returncode == 1 or crashed,
+                             "outcome": ("the interpreter was killed by signal %d: " % -p.returncode if crashed else "") +
+                             (p.stdout + p.stderr)[-1500:], "script": script, "families": [fam]}
+            except Exception as ex:
+                done[fam] = {"reproduced": False, "outcome": "replayer error: %r" % (ex,)}
+        o.replay = done[fam]
